@@ -24,11 +24,14 @@ type stressCaller struct {
 	gotOpid string
 	gotTok  string
 	done    chan struct{}
+	ctx     frugal.FContext
 }
 
 // StressResult is what one hook-free concurrent trial showed.
 type StressResult struct {
 	Callers, Frames int
+	Retries         int    // timed-out callers that issued the same FContext again
+	RetryBad        string // the retry of a timed-out request was not served (C01 and C06)
 	Decoys          int // frames with a header value embedding another caller's serialised _opid pair
 	CrossSubject    int // frames published on the reply subject of another request (NATS)
 	Shape           string
@@ -65,10 +68,12 @@ func StressTrial(legName string, n int, seed int64, nats *NatsServer, maxCopies 
 			seen <- op
 		}
 	}
+	var adapter *AdapterLeg
 	if legName == "adapter" {
 		a := NewAdapterLeg()
 		a.St.OnFrame = onReq
 		leg = a
+		adapter = a
 	} else {
 		nl := NewNatsLeg(nats)
 		nl.OnRequest = func(_ string, f []byte) { onReq(f) }
@@ -123,6 +128,7 @@ func StressTrial(legName string, n int, seed int64, nats *NatsServer, maxCopies 
 			ctx.SetTimeout(time.Duration(30+rng.Intn(30)) * time.Millisecond)
 		}
 		c.opid = OpidOf(ctx)
+		c.ctx = ctx
 		ctl.Own(c.opid)
 		owned = append(owned, c.opid)
 		go func(i int, c *stressCaller, ctx frugal.FContext) {
@@ -207,6 +213,12 @@ func StressTrial(legName string, n int, seed int64, nats *NatsServer, maxCopies 
 	for u := rng.Intn(4); u > 0; u-- {
 		uctx := frugal.NewFContext("")
 		uop := OpidOf(uctx)
+		switch rng.Intn(4) { // op ids are uint64 on the wire: also ids no context of this process will ever carry
+		case 0:
+			uop = 1 << 63
+		case 1:
+			uop = ^uint64(0) - uint64(rng.Intn(1000))
+		}
 		plan = append(plan, fr{uop, "resp:unknown", otherSubj(uop), cs[rng.Intn(len(cs))].opid})
 	}
 	switch rng.Intn(3) {
@@ -265,6 +277,65 @@ func StressTrial(legName string, n int, seed int64, nats *NatsServer, maxCopies 
 	}
 	for _, c := range cs {
 		if !awaitOrStall(c.done, "a caller did not return") {
+			return res
+		}
+	}
+	// a caller that timed out tries again with the same FContext (same op id), before any late frame of the first attempt is on its way:
+	// the earlier attempt is over, so the retry is an ordinary request and its
+	// response, arriving in time, must be delivered to it
+	retried := 0
+	for i, c := range cs {
+		if c.kind == 'A' || retried >= 2 || c.err == nil {
+			continue
+		}
+		retried++
+		c.ctx.SetTimeout(60 * time.Second)
+		rdone := make(chan struct{})
+		var rerr error
+		var rtok string
+		go func() {
+			defer close(rdone)
+			rt, err := tr.Request(c.ctx, wire.BuildFrame(wire.MapToPairs(c.ctx.RequestHeaders()), []byte("req")))
+			rerr = err
+			if err == nil && rt != nil {
+				body, _ := io.ReadAll(rt)
+				if _, used, perr := wire.DecodeHeaders(body); perr == nil {
+					rtok = string(body[used:])
+				}
+			}
+		}()
+		wd = time.After(20 * time.Second)
+		for got := false; !got; {
+			select {
+			case op := <-seen:
+				got = op == c.opid
+			case <-rdone:
+				got = true
+			case <-wd:
+				res.Inconclusive = "retried request did not reach the wire"
+				return res
+			}
+		}
+		want := fmt.Sprintf("retry:c%d", i)
+		leg.Inject(c.opid, FrameFor(c.opid, want))
+		res.Frames++
+		res.Retries++
+		if !awaitOrStall(rdone, "retried request not answered") {
+			idle := false
+			if adapter != nil {
+				idle, _ = adapter.St.ReaderIdle()
+			}
+			if res.Stall == "" && res.Bad == "" && res.Inconclusive != "" && idle {
+				// every byte was read and the reader waits for more: the retry can only time out
+				res.Inconclusive = ""
+				res.RetryBad = fmt.Sprintf("caller %d timed out, then issued the same FContext (op id %d) again; the response to the retry arrived in time and was not delivered to it", i, c.opid)
+				res.Witness = witness(nil)
+			}
+			return res
+		}
+		if rerr != nil || rtok != want {
+			res.RetryBad = fmt.Sprintf("caller %d timed out, then issued the same FContext (op id %d) again; the retry completed with payload %q err=%v, the frame sent to it was %q", i, c.opid, rtok, rerr, want)
+			res.Witness = witness(nil)
 			return res
 		}
 	}
